@@ -77,6 +77,7 @@ def check_spec(ctx, sf, spec, reqs, pending, marked_cls=("MeasureFock",)):
     def ids(seq):
         return [ident.get(id(c), -1) for c in seq]
 
+    ctx.oracle_cases += 1          # every spec is judged by the independent order check `py_respects` below
     # 1. list_to_grid
     grid = pu.list_to_grid(cmds)
     g_impl = sorted([k, ids(v)] for k, v in grid.items())
